@@ -429,8 +429,22 @@ def check_rules(seed, tier, v):
 
 
 # =========================================================================== C12 / C13 / C05
-def layout_history(rnd, pk, ncols=3, dup_keys=False):
-    """A table filled by several INSERTs, deletes and compactions; returns (steps, rows)."""
+def layout_history(rnd, pk, ncols=3, dup_keys=False, pkcol="a"):
+    """A table filled by several INSERTs, deletes and compactions; returns (steps, rows).  With pkcol = "b" the
+    key is the second column (rows are generated as (key, other, c) and the first two positions swapped)."""
+    steps, rows = _layout_history(rnd, pk, dup_keys)
+    if pkcol == "b":
+        for r in rows:
+            r[0], r[1] = r[1], r[0]
+        for st in steps:
+            if "sql" in st and st["sql"].startswith("insert"):
+                st["sql"] = re.sub(r"\(([^,()]+), ([^,()]+), ", lambda m: f"({m.group(2)}, {m.group(1)}, ", st["sql"])
+            elif "sql" in st and st["sql"].startswith("delete"):
+                st["sql"] = st["sql"].replace("where a ", "where b ")
+    return steps, rows
+
+
+def _layout_history(rnd, pk, dup_keys=False):
     rows, steps = [], []
     keys = list(range(0, 12))
     nins = rnd.choice([1, 2, 3, 4])
@@ -472,12 +486,14 @@ def layout_history(rnd, pk, ncols=3, dup_keys=False):
 T1 = {"t1": G.TABLES["t1"]}
 
 
-def order_query(rnd, rows):
+def order_query(rnd, rows, pkcol="a"):
     """select over t1 with ORDER BY / LIMIT / OFFSET (and a filter now and then)."""
     g = G.Gen(rnd, tables=T1, joins=False, feat=dict(ENVELOPE, subq=()))
     scope = [("x1", c, ty) for c, ty in T1["t1"]]
     sel = [(("col", "x1", c, ty), f"c{i + 1}") for i, (c, ty) in enumerate(T1["t1"])]
     rnd.shuffle(sel)
+    if rnd.random() < 0.45:
+        sel = sel[:rnd.choice([1, 2])]          # a subset of the columns: the scan prunes the others
     sel = [(e, f"c{i + 1}") for i, (e, _) in enumerate(sel)]
     if rnd.random() < 0.3:
         sel.append((g.int_expr(scope, None, 1), f"c{len(sel) + 1}"))
@@ -495,15 +511,16 @@ def order_query(rnd, rows):
     return q
 
 
-def range_query(rnd, rows):
+def range_query(rnd, rows, pkcol="a"):
     """select with a comparison predicate on the primary key (pushed into the scan as a key range)."""
     g = G.Gen(rnd, tables=T1, joins=False, feat=dict(ENVELOPE, subq=()))
     scope = [("x1", c, ty) for c, ty in T1["t1"]]
     cols = [("col", "x1", c, ty) for c, ty in T1["t1"]]
     proj = rnd.choice([cols, cols[::-1], [cols[1], cols[2]], [cols[1], cols[0]], [cols[2], cols[0], cols[1]]])
     sel = [(e, f"c{i + 1}") for i, e in enumerate(proj)]
-    key = ("col", "x1", "a", G.INT)
-    present = sorted({r[0] for r in rows if r[0] is not None}) or [0]
+    key = ("col", "x1", pkcol, G.INT)
+    kpos = 0 if pkcol == "a" else 1
+    present = sorted({r[kpos] for r in rows if r[kpos] is not None}) or [0]
     def bound():
         return ("ci", rnd.choice(present + [min(present) - 1, max(present) + 1, rnd.choice(range(0, 15))]))
     k = rnd.random()
@@ -532,9 +549,12 @@ def layout_cases(seed, n, mkquery, pk_mode, dup_keys=False):
     cases = []
     for i in range(n):
         pk = pk_mode if isinstance(pk_mode, bool) else rnd.random() < 0.6
-        steps, rows = layout_history(rnd, pk, dup_keys=dup_keys)
-        qs = [mkquery(rnd, rows) for _ in range(4)]
-        cases.append({"pk": pk, "steps": steps, "rows": rows, "queries": qs, "layout": LAYOUTS[i % len(LAYOUTS)]})
+        # the key is not always the first column
+        pkcol = "b" if pk and rnd.random() < 0.3 else "a"
+        steps, rows = layout_history(rnd, pk, dup_keys=dup_keys, pkcol=pkcol)
+        qs = [mkquery(rnd, rows, pkcol) for _ in range(4)]
+        cases.append({"pk": pk, "pkcol": pkcol, "steps": steps, "rows": rows, "queries": qs,
+                      "layout": LAYOUTS[i % len(LAYOUTS)]})
     return cases
 
 
@@ -542,7 +562,9 @@ def run_layout_cases(cases, tag, engines=("disk", "mem")):
     runs, labels = [], []
     for i, c in enumerate(cases):
         for eng in engines:
-            steps = [{"sql": f"create table t1(a int{' primary key' if c['pk'] else ''}, b int, c varchar)"}]
+            pa = " primary key" if c["pk"] and c.get("pkcol", "a") == "a" else ""
+            pb = " primary key" if c["pk"] and c.get("pkcol", "a") == "b" else ""
+            steps = [{"sql": f"create table t1(a int{pa}, b int{pb}, c varchar)"}]
             steps += [dict(s) for s in c["steps"]]
             lab = []
             for k, q in enumerate(c["queries"]):
